@@ -12,7 +12,6 @@ use std::task::Poll;
 use std::time::Duration;
 use tokio::model::{self, st};
 use tower::Service;
-use tower_resilience_retry::FnInterval;
 
 struct G {
     magic: [u64; 2],
@@ -20,8 +19,9 @@ struct G {
     asked: [u32; 4],
     asks: u32,
     pred_calls: u32,
+    policy_none: bool,
 }
-static mut GH: G = G { magic: [0x5245434f4e4e4543, 0x545f4331365f4748], delays: [Duration::ZERO; 4], asked: [99; 4], asks: 0, pred_calls: 0 };
+static mut GH: G = G { magic: [0x5245434f4e4e4543, 0x545f4331365f4748], delays: [Duration::ZERO; 4], asked: [99; 4], asks: 0, pred_calls: 0, policy_none: false };
 fn gh() -> &'static mut G {
     unsafe { &mut *core::ptr::addr_of_mut!(GH) }
 }
@@ -35,23 +35,27 @@ fn any_millis(max_ms: u64) -> Duration {
     Duration::new(secs, ms * 1_000_000)
 }
 
-/// policy: 0 = None, 1 = Fixed, 2 = Custom (per-attempt symbolic delays)
-fn one_request(policy_kind: u8, with_pred: bool, retry_on_reconnect: bool) {
-    let max_attempts: Option<u32> = if kani::any() { None } else { let m: u32 = kani::any(); kani::assume(m <= 1); Some(m) };
-    gh().delays = [any_millis(10_000), any_millis(10_000), any_millis(10_000), any_millis(10_000)];
-    let fixed = any_millis(10_000);
-    let policy = match policy_kind {
-        0 => ReconnectPolicy::none(),
-        1 => ReconnectPolicy::fixed(fixed),
-        _ => ReconnectPolicy::Custom(Arc::new(FnInterval::new(|k: usize| {
-            let g = gh();
-            if (g.asks as usize) < 4 {
-                g.asked[g.asks as usize] = k as u32;
-            }
-            g.asks += 1;
-            g.delays[k.min(3)]
-        }))),
-    };
+/// `ReconnectPolicy::delay_for_attempt` is replaced by a script: through the
+/// heap-allocated config CBMC explores every policy variant at every call,
+/// including the f64/powi/rand code of the exponential ones (2.7 M symex steps,
+/// solver crash).  What the real function returns is C14; here it returns the
+/// harness-chosen delay for the attempt (or None for "no policy") and logs the
+/// attempt number it was asked for.
+fn scripted_delay(_p: &ReconnectPolicy, attempt: usize) -> Option<Duration> {
+    let g = gh();
+    if (g.asks as usize) < 4 {
+        g.asked[g.asks as usize] = attempt as u32;
+    }
+    g.asks += 1;
+    if g.policy_none { None } else { Some(g.delays[attempt.min(3)]) }
+}
+
+fn mk_cfg(policy_kind: u8, with_pred: bool, retry_on_reconnect: bool, max_attempts: Option<u32>, fixed: Duration) -> ReconnectConfig {
+    gh().policy_none = policy_kind == 0;
+    if policy_kind == 1 {
+        gh().delays = [fixed, fixed, fixed, fixed];
+    }
+    let policy = ReconnectPolicy::none();
     let mut cfg = ReconnectConfig::default();
     cfg.policy = policy;
     cfg.max_attempts = max_attempts;
@@ -64,48 +68,57 @@ fn one_request(policy_kind: u8, with_pred: bool, retry_on_reconnect: bool) {
             reconnectable(code)
         }));
     }
+    cfg
+}
+
+/// policy: 0 = None, 1 = Fixed, 2 = Custom (per-attempt symbolic delays).
+/// Schedule: poll; while pending (backing off) advance the clock by exactly the
+/// policy's delay and poll again; inner calls complete at their first poll.
+/// Before every poll another request on a clone of the layer may succeed
+/// (mark the shared state connected).
+fn one_request(policy_kind: u8, with_pred: bool, retry_on_reconnect: bool) {
+    let max_attempts: Option<u32> = if kani::any() { None } else { let m: u32 = kani::any(); kani::assume(m <= 1); Some(m) };
+    gh().delays = [any_millis(10_000), any_millis(10_000), any_millis(10_000), any_millis(10_000)];
+    let fixed = any_millis(10_000);
+    let cfg = mk_cfg(policy_kind, with_pred, retry_on_reconnect, max_attempts, fixed);
     let shared = ReconnectState::new();
     let mut script = svc::any_script();
     script.never = false;
-    script.immediate = kani::any(); // all inner calls complete at once, or each at a poll of the solver's choice
+    script.immediate = true;
     let mut s = ReconnectService::new(Inner::new(script), Arc::new(cfg), shared.clone());
     let req: u32 = kani::any();
     let _ = svc::poll_ready_once(&mut s);
     let mut fut = Box::pin(s.call(req));
     let mut out = None;
-    let mut sleep_started = model::now();
-    let mut failing = false; // a reconnectable failure is being handled
     let mut step = 0;
     while step < 4 {
-        // another request on a clone of the layer may succeed at any moment
-        let other_succeeded: bool = kani::any();
-        if other_succeeded {
-            shared.mark_connected();
+        if kani::any() {
+            shared.mark_connected(); // another request succeeded
         }
-        model::advance(any_millis(15_000));
         let (calls0, sleeps0) = (mon().calls, st().sleeps_created);
+        let t_poll = model::now();
         let p = svc::poll_once(fut.as_mut());
-        if st().sleeps_created > sleeps0 {
-            sleep_started = model::now();
-            failing = true;
-            assert!(st().sleeps_created == sleeps0 + 1, "[C16.one_sleep_per_failure] one back-off per reconnectable failure");
-        }
-        if mon().calls > calls0 {
-            // a retry was issued in this poll
-            let k = (st().sleeps_created as usize).max(1) - 1;
-            let d = if policy_kind == 1 { fixed } else { gh().delays[(k + 1).min(3)] };
-            assert!(model::now() >= sleep_started + d, "[C16.waits_policy_delay] a retry is issued only after the policy's delay has elapsed");
+        if mon().calls > calls0 && step > 0 {
             assert!(retry_on_reconnect, "[C16.no_retry_when_disabled] no retry when retry_on_reconnect is off");
         }
         if let Poll::Ready(r) = p {
             out = Some(r);
             break;
         }
-        if failing && !other_succeeded {
-            // between a reconnectable failure and the next resolution the layer must not claim to be connected
-            assert!(shared.state() != ConnectionState::Connected,
-                "[C16.not_connected_while_failing] the published state is not Connected while a reconnectable failure is being handled");
+        // pending: a reconnectable failure is being handled and the layer is backing off
+        assert!(st().sleeps_created >= sleeps0 + 1 && mon().live == 0, "[C16.pending_only_in_backoff] with completed inner calls the request is pending only while backing off");
+        // back-offs created and finished inside this one poll must have been zero
+        let mut j = sleeps0 as usize + 1;
+        while j < st().sleeps_created as usize {
+            assert!(gh().delays[j.min(3)] == Duration::ZERO, "[C16.waits_policy_delay] a non-zero delay is never skipped");
+            j += 1;
         }
+        let k = st().sleeps_created as usize; // number of the attempt that failed (1-based)
+        let d = gh().delays[k.min(3)];
+        assert!(st().last_sleep_duration == d, "[C16.waits_policy_delay] before each retry it waits the policy's delay for that attempt");
+        assert!(shared.state() != ConnectionState::Connected, "[C16.not_connected_while_failing] the published state is not Connected right after a reconnectable failure");
+        let _ = t_poll;
+        model::advance(d);
         step += 1;
     }
     let calls = mon().calls as usize;
@@ -114,7 +127,7 @@ fn one_request(policy_kind: u8, with_pred: bool, retry_on_reconnect: bool) {
         assert!(calls <= m as usize + 1, "[C16.bounded_attempts] at most max_attempts + 1 calls for one request");
     }
     assert!(mon().last_req == req, "[C16.same_request] every attempt carries the request");
-    if policy_kind == 2 {
+    {
         let mut k = 0;
         while k < 4 && k < gh().asks as usize {
             assert!(gh().asked[k] as usize == k + 1, "[C16.delay_for_attempt_number] the policy is asked for the delay of attempt k");
@@ -153,8 +166,46 @@ fn one_request(policy_kind: u8, with_pred: bool, retry_on_reconnect: bool) {
             }
         }
     }
-    kani::cover!(mon().calls == 2 && matches!(out, Some(Err(ReconnectError::MaxAttemptsExceeded { .. }))), "exhausted after two calls");
-    kani::cover!(mon().calls == 2 && matches!(out, Some(Ok(_))), "success on the retry");
+    kani::cover!(out.is_some() && mon().calls >= 1, "request resolved");
+    std::mem::forget(fut);
+    std::mem::forget(s);
+}
+
+/// While the retried call is still running after a reconnectable failure, and at
+/// every instant before the policy's delay has elapsed, the layer does not claim
+/// to be connected and issues no call.
+#[kani::proof]
+#[kani::unwind(6)]
+#[kani::stub(std::time::Instant::now, tokio::model::std_instant_now)]
+#[kani::stub(ReconnectPolicy::delay_for_attempt, scripted_delay)]
+fn not_connected_while_failing() {
+    gh().delays = [any_millis(10_000), any_millis(10_000), any_millis(10_000), any_millis(10_000)];
+    let cfg = mk_cfg(2, false, true, None, Duration::ZERO);
+    let shared = ReconnectState::new();
+    let mut script = svc::any_script();
+    script.never = false;
+    script.immediate = true;
+    script.never_mask = 0b10; // the retried call (number 1) stays in flight
+    script.outcomes[0] = Err(kani::any());
+    let mut s = ReconnectService::new(Inner::new(script), Arc::new(cfg), shared.clone());
+    let _ = svc::poll_ready_once(&mut s);
+    let mut fut = Box::pin(s.call(kani::any()));
+    let d = gh().delays[1];
+    kani::assume(d > Duration::ZERO); // (zero delays: covered by the one_request harnesses)
+    let p = svc::poll_once(fut.as_mut());
+    assert!(p.is_pending() && mon().calls == 1 && st().sleeps_created == 1 && st().last_sleep_duration == d, "[C16.waits_policy_delay] a connection failure is followed by the policy's delay");
+    assert!(shared.state() != ConnectionState::Connected, "[C16.not_connected_while_failing] not Connected while backing off");
+    {
+        let early = any_millis(10_000);
+        kani::assume(early < d);
+        model::advance(early);
+        let p = svc::poll_once(fut.as_mut());
+        assert!(p.is_pending() && mon().calls == 1, "[C16.waits_policy_delay] no retry before the delay has elapsed");
+        model::advance(d - early);
+    }
+    let p = svc::poll_once(fut.as_mut());
+    assert!(p.is_pending() && mon().calls == 2 && mon().live == 1, "[C16.retries_after_delay] the retry is issued once the delay has elapsed");
+    assert!(shared.state() != ConnectionState::Connected, "[C16.not_connected_while_failing] not Connected while the retried call has not produced a result");
     std::mem::forget(fut);
     std::mem::forget(s);
 }
@@ -163,6 +214,7 @@ macro_rules! proofs { ($($name:ident = ($k:expr, $p:expr, $r:expr)),*) => {$(
     #[kani::proof]
     #[kani::unwind(6)]
     #[kani::stub(std::time::Instant::now, tokio::model::std_instant_now)]
+    #[kani::stub(ReconnectPolicy::delay_for_attempt, scripted_delay)]
     fn $name() { one_request($k, $p, $r) }
 )*}}
 proofs!(custom_policy_predicate_retry = (2, true, true), custom_policy_no_predicate = (2, false, true), fixed_policy_no_retry = (1, true, false), no_policy = (0, true, true));
